@@ -63,6 +63,10 @@ pub(crate) struct Server {
 
     /// Aggregated formatting settings
     formatting_settings: FormattingSettings,
+
+    /// The latest version of each document the server has been notified about.
+    /// Background analyses use it to drop results that belong to an outdated version.
+    latest_versions: Arc<std::sync::Mutex<HashMap<Uri, i32>>>,
 }
 
 impl Server {
@@ -90,6 +94,10 @@ impl Server {
         connection: Arc<lsp_server::Connection>,
     ) -> anyhow::Result<()> {
         let file_path: PathBuf = PathBuf::from(uri.path().to_string());
+        self.latest_versions
+            .lock()
+            .unwrap_or_else(|e| e.into_inner())
+            .insert(uri.clone(), version);
         let document_state = self.documents.get_mut(&uri).unwrap();
         eprintln!("analyze: step 1 - parse");
         document_state.clear();
@@ -108,6 +116,7 @@ impl Server {
             uri,
             version,
             document_state.clone(),
+            self.latest_versions.clone(),
         )?;
         eprintln!("analyze: finished");
         Ok(())
@@ -130,7 +139,17 @@ impl Server {
         uri: Uri,
         version: i32,
         document_state: DocumentState,
+        latest_versions: Arc<std::sync::Mutex<HashMap<Uri, i32>>>,
     ) -> anyhow::Result<()> {
+        // Results of an analysis are only published if no newer version of the document has
+        // arrived in the meantime.
+        let is_outdated = move |uri: &Uri| {
+            latest_versions
+                .lock()
+                .unwrap_or_else(|e| e.into_inner())
+                .get(uri)
+                .is_some_and(|latest| *latest != version)
+        };
         let mut grammar_config = Self::obtain_grammar_config_from_string(input, file_name)?;
         let ignored_unreachable_non_terminals = grammar_config
             .unreachable_non_terminals_to_ignore
@@ -150,12 +169,18 @@ impl Server {
             GrammarType::LLK => {
                 if let Err(err) = calculate_lookahead_dfas(&grammar_config, max_k) {
                     eprintln!("check_grammar: errors from calculate_lookahead_dfas");
+                    if is_outdated(&uri) {
+                        return;
+                    }
                     let _ =
                         Self::notify_analysis_error(err, connection, &uri, version, document_state);
                 }
             }
             GrammarType::LALR1 => {
                 let result = calculate_lalr1_parse_table(&grammar_config);
+                if is_outdated(&uri) {
+                    return;
+                }
                 match result {
                     Ok((_, resolved_conflicts)) => {
                         let _ = Self::notify_resolved_conflicts(
